@@ -30,9 +30,10 @@ OnRemove(s, e) ==
   IF e.err # "nil" THEN s
   ELSE [s EXCEPT !.streams = SelectSeq(s.streams, LAMBDA x : x.pid # e.pid), !.changed = TRUE]
 
-\* index (1..npk) of the first payload packet of pid among the npk packet events after i; npk+1 if none
+\* index (1..npk) of the first packet of the unit (any packet of pid - an adaptation-only packet carrying the random access
+\* indicator belongs to the unit) among the npk packet events after i; npk+1 if none
 FirstPES(i, npk, pid) ==
-  LET c == {k \in 1..npk : LET h == Hdr(Trace[i+k].b) IN h.pid = pid /\ HasPL(h)}
+  LET c == {k \in 1..npk : Hdr(Trace[i+k].b).pid = pid}
   IN IF c = {} THEN npk + 1 ELSE CHOOSE k \in c : \A j \in c : k <= j
 
 OnData(s, e, i) ==
